@@ -14,25 +14,24 @@
        the API's types (wf_op2: bytes are bytes, u64 / i64 in range), if on the arena side
          - no operation panicked                       (a_dead st = false),
          - new_substr never took finding F2's branch: neither the copy (a_f2 st = false) nor, in the
-           repaired variant fx = true, that branch's OutOfMemory          (clean_run, ONewSubstr),
-         - maybe_restore_with_node never reported "invalid atom byte range" (clean_run, OMaybeRestore),
+           repaired variant fx = true, that branch's OutOfMemory          (substr_clean),
        then the arena's (atom_count, pair_count, heap_size) equal the reference's three counts, the
        reference did not panic either, the heap limits agree, and every live arena node denotes the
        reference's tree at the same index. Proof: the lock-step simulation Proofs/AllocSim.v (node
        lists in the relation "denotes", checkpoint lists corresponding, counts equal), one case per
-       operation and outcome, on top of the invariant AllocInv.AINV.
-       C12_history_no_mr: for the unrepaired code (fx = false) and histories without
-       maybe_restore_with_node the third premise is void.  C12_step: the single simulation step.
-       Not proved: that "invalid atom byte range" is unreachable (it needs the extra invariant that no
-       atom straddles a live checkpoint's heap mark, AllocRestore.no_straddle, which C12_maybe_restore_keeps
-       takes as a premise); the differential runs of lib/props/c12.py never observed it.
+       operation and outcome, on top of the invariants AllocInv.AINV and AllocStraddle.NSI.
+       C12_history_unrepaired: for the code without the heap-limit check in that branch (fx = false)
+       the second premise is just a_f2 st = false.  C12_step: the single simulation step.
+       C12_no_straddle / C12_maybe_restore_total: no atom ever straddles the heap mark of a live
+       checkpoint (invariant of every step), hence maybe_restore_with_node never reports "invalid atom
+       byte range" - the premise no_straddle of C12_maybe_restore_keeps holds in every history.
    (b) the accounting rule PER OPERATION (for every allocator state satisfying the invariant AOK, which
        AllocInv.ainv_run shows to hold after every history, see Props/C13.v), for every public
        operation and every representation of its arguments (inline small atom, heap atom, substring,
        pair), including the optimised-away allocations (inline atoms, empty / single-argument concat)
        and all outcomes of maybe_restore_with_node. The rule is exactly the transition function of the
        reference.
-   Level claimed: other (F2 refutes the statement as written; one unreachability premise is unproved).
+   Level claimed: other (F2 refutes the statement as written).
 
    Refuted as stated (finding F2): new_substr on an inline small atom whose slice is not a canonical
    small integer copies the slice to the heap, so heap_size grows by the slice length although
@@ -40,7 +39,7 @@
    branch ([SubSmallHeap]) — with or without the heap-limit fix the bytes are still counted. *)
 From Coq Require Import Lia.
 From Clvm Require Import Model.AllocHist Proofs.AllocBasics Proofs.AllocHeap Proofs.AllocOps
-  Proofs.AllocRestore Proofs.AllocReads Proofs.AllocInv Proofs.AllocSim.
+  Proofs.AllocRestore Proofs.AllocReads Proofs.AllocInv Proofs.AllocSim Proofs.AllocStraddle.
 Open Scope N_scope.
 
 Theorem C12_init_counts : forall limit a, new_limited limit = Ok a -> counts a = (2, 0, 1).
@@ -142,16 +141,25 @@ Proof. exact maybe_restore_ok. Qed.
 (* ------------------------------------------------------------------ whole histories *)
 Theorem C12_history : forall fx limit h st, 1 <= limit -> Forall wf_op2 h ->
   a_final fx limit h = Some st -> a_dead st = false -> a_f2 st = false ->
-  (forall st0, a_init limit = Ok st0 -> clean_run fx st0 h) ->
+  (forall st0, a_init limit = Ok st0 -> substr_clean fx st0 h) ->
   a_counts st = rs_counts (r_final limit h) /\ r_dead (r_final limit h) = false /\
   heap_limit (a_al st) = r_limit (r_st (r_final limit h)) /\
   Forall2 (fun n t => denote (hp (a_al st)) n = Some t) (a_nodes st) (r_nodes (r_final limit h)).
-Proof. exact history_counts. Qed.
+Proof. exact history_counts_ns. Qed.
 
-Theorem C12_history_no_mr : forall limit h st, 1 <= limit -> Forall wf_op2 h -> Forall no_mr h ->
+Theorem C12_history_unrepaired : forall limit h st, 1 <= limit -> Forall wf_op2 h ->
   a_final false limit h = Some st -> a_dead st = false -> a_f2 st = false ->
   a_counts st = rs_counts (r_final limit h).
-Proof. exact history_counts_no_mr. Qed.
+Proof. exact history_counts_unrepaired. Qed.
+
+(* no atom straddles the heap mark of a live checkpoint: preserved by every step from every state
+   satisfying the invariant; so maybe_restore_with_node never reports "invalid atom byte range" *)
+Theorem C12_no_straddle : forall fx st o, AINV st -> NSI st -> NSI (fst (a_step fx st o)).
+Proof. exact ns_step. Qed.
+
+Theorem C12_maybe_restore_total : forall fx st k i, AINV st -> NSI st ->
+  snd (a_step fx st (OMaybeRestore k i)) <> ObErr (InternalError 5).
+Proof. exact mr_no_ie5. Qed.
 
 (* one step of the simulation, from any related pair of states *)
 Theorem C12_step : forall fx st rs o, SIM st rs -> wf_op2 o ->
@@ -196,7 +204,7 @@ Example C12_history_witness : forall fx,
   Forall wf_op2 hist_witness /\
   option_map a_dead (a_final fx 5000 hist_witness) = Some false /\
   option_map a_f2 (a_final fx 5000 hist_witness) = Some false /\
-  (forall st0, a_init 5000 = Ok st0 -> clean_run fx st0 hist_witness) /\
+  (forall st0, a_init 5000 = Ok st0 -> substr_clean fx st0 hist_witness) /\
   option_map a_counts (a_final fx 5000 hist_witness) = Some (rs_counts (r_final 5000 hist_witness)).
 Proof.
   intros fx. split.
@@ -223,7 +231,9 @@ Print Assumptions C12_maybe_restore_keeps.
 Print Assumptions C12_refuted.
 Print Assumptions C12_witness.
 Print Assumptions C12_history.
-Print Assumptions C12_history_no_mr.
+Print Assumptions C12_history_unrepaired.
+Print Assumptions C12_no_straddle.
+Print Assumptions C12_maybe_restore_total.
 Print Assumptions C12_step.
 Print Assumptions C12_init.
 Print Assumptions C12_history_witness.
